@@ -412,7 +412,7 @@ func (c *Client) mergeLatestMem(msg []byte) (when int, err error) {
 		installed := false
 		if c.latest == latest {
 			installed = true
-			verifInstall(c, c.latest.N, tree.N)
+			verifInstall(c, c.latest, tree)
 			c.latest = tree
 			c.latestMsg = msg
 		} else {
